@@ -61,12 +61,13 @@ class CoopLock:
 class Execution:
     """One controlled run of n thread bodies under a given choice prefix."""
 
-    def __init__(self, bodies, prefix, visible, opcode_codes=(), max_points=20000):
+    def __init__(self, bodies, prefix, visible, opcode_codes=(), max_points=20000, entry_files=()):
         self.bodies = bodies
         self.n = len(bodies)
         self.prefix = list(prefix)
         self.visible = visible            # set of code objects
         self.opcode_codes = opcode_codes  # subset traced at opcode granularity
+        self.entry_files = set(entry_files)  # files whose functions get one point at every entry / resumption
         self.points = []                  # (running tid, enabled tuple, location, choice)
         self.sems = [threading.Semaphore(0) for _ in range(self.n)]
         self.done = [False] * self.n
@@ -168,6 +169,12 @@ class Execution:
             if code in self.opcode_codes:
                 frame.f_trace_opcodes = True
             return self._local_trace
+        if code.co_filename in self.entry_files:
+            # the frame exists (for whatever code was installed when the call was made) but none of
+            # its instructions has run yet
+            tid = self.tids.get(threading.get_ident())
+            if tid is not None and not self.fatal:
+                self.point(tid, ("entry:" + code.co_name, code.co_firstlineno, 0), "line")
         return None
 
     def _local_trace(self, frame, event, arg):
